@@ -457,6 +457,16 @@ func fixLength(isResponse bool, status int, requestMethod string, header Header,
 	}
 
 	// Logic based on Content-Length
+	if cls := header["Content-Length"]; len(cls) > 1 {
+		// RFC 7230 3.3.2: identical repeated values may be folded, anything else is an error
+		first := strings.TrimSpace(cls[0])
+		for _, v := range cls[1:] {
+			if strings.TrimSpace(v) != first {
+				return -1, &badStringError{"conflicting Content-Length", strings.Join(cls, ",")}
+			}
+		}
+		header["Content-Length"] = cls[:1]
+	}
 	cl := strings.TrimSpace(header.GetDirect("Content-Length"))
 	if cl != "" {
 		n, err := parseContentLength(cl)
@@ -692,10 +702,10 @@ func parseContentLength(cl string) (int64, error) {
 	if cl == "" {
 		return -1, nil
 	}
-	n, err := strconv.ParseInt(cl, 10, 64)
-	if err != nil || n < 0 {
+	n, err := strconv.ParseUint(cl, 10, 63)
+	if err != nil {
 		return 0, &badStringError{"bad Content-Length", cl}
 	}
-	return n, nil
+	return int64(n), nil
 
 }
